@@ -1,6 +1,907 @@
-//! C16 — not built yet.
+//! C16 — the key-version-value stores never roll back and agree with each other.
+//!
+//! Two groups:
+//!  * `C16Pair` (model `kvv_pair`): every case is run on a real `MemoryKVVStore` **and** on a real
+//!    `RedbKVVStore` in a fresh temp dir (dropped and re-created from the same directory at `reopen`
+//!    ops); one output line per op holds both results, both full `get_prefix("")` dumps and the
+//!    `get_version` probes of the redb version cache.
+//!  * `C16Cloud` (model `kvv_cloud`): `CloudKVVStore<MemoryKVVStore>` with enter/prepare/commit.
+//!
+//! Case plan (both groups): breadth-first exploration of *all* request sequences up to the tier's
+//! depth over the small alphabet (2 keys × 3 versions × 2 values × all ops incl. put_batch with ≤ 2
+//! entries and repeated keys), collapsed on equality of the complete observable state of the real
+//! stores, followed by random long sequences with extreme versions.
+//!
+//! Monitors (ghost ledger on the implementation trace, independent of the Lean model): versions
+//! never decrease, same version ⇒ same content (whole history), batch atomicity, read = last
+//! accepted write, reopen keeps contents and version cache, memory ≡ redb, cloud read-your-writes,
+//! cloud local store changes only at commit and by exactly the mutations `prepare` reported.
 use crate::common::*;
+use lightning_signer::persist::Error;
+use std::collections::{BTreeMap, BTreeSet, HashMap};
+use std::panic::{catch_unwind, AssertUnwindSafe};
+use std::sync::atomic::{AtomicUsize, Ordering};
+use std::sync::{Mutex, OnceLock};
+use vls_persist::kvv::cloud::CloudKVVStore;
+use vls_persist::kvv::memory::MemoryKVVStore;
+use vls_persist::kvv::redb::RedbKVVStore;
+use vls_persist::kvv::{KVVStore, KVV};
+
+type Rec = (u64, Vec<u8>);
+type Dump = Vec<(u64, Rec)>; // key id, record — in the order the store returned them
+
+const SID: [u8; 16] = [7u8; 16];
+
+fn key_name(k: u64) -> String {
+    if k == 0 {
+        "_WRITER".to_string()
+    } else {
+        format!("k{}", k)
+    }
+}
+
+fn key_id(s: &str) -> u64 {
+    if s == "_WRITER" {
+        0
+    } else {
+        s.trim_start_matches('k').parse().unwrap_or(99)
+    }
+}
+
+fn hexs(b: &[u8]) -> String {
+    if b.is_empty() {
+        "-".into()
+    } else {
+        hex::encode(b)
+    }
+}
+
+fn unhex(s: &str) -> Vec<u8> {
+    if s == "-" {
+        vec![]
+    } else {
+        hex::decode(s).expect("hex")
+    }
+}
+
+fn show_rec(r: &Rec) -> String {
+    format!("{}:{}", r.0, hexs(&r.1))
+}
+
+fn show_dump(d: &Dump) -> String {
+    let v: Vec<String> = d.iter().map(|(k, r)| format!("{}:{}", k, show_rec(r))).collect();
+    format!("[{}]", v.join(","))
+}
+
+#[derive(Clone, Debug, PartialEq)]
+enum Op {
+    Put(u64, Vec<u8>),
+    PutV(u64, u64, Vec<u8>),
+    Batch(Vec<(u64, Rec)>),
+    Del(u64),
+    Get(u64),
+    GetVer(u64),
+    Prefix(String),
+    Reopen,
+    Enter,
+    Prepare,
+    Commit,
+}
+
+fn prefix_string(p: &str) -> String {
+    match p {
+        "all" => "".into(),
+        "w" => "_".into(),
+        other => other.to_string(), // "k", "k1", "zz"
+    }
+}
+
+fn parse_op(line: &str) -> Op {
+    let t: Vec<&str> = line.split(' ').filter(|s| !s.is_empty()).collect();
+    let n = |s: &str| s.parse::<u64>().expect("number");
+    match t[0] {
+        "put" => Op::Put(n(t[1]), unhex(t[2])),
+        "putv" => Op::PutV(n(t[1]), n(t[2]), unhex(t[3])),
+        "batch" => {
+            let mut es = Vec::new();
+            let mut i = 1;
+            while i + 2 < t.len() {
+                es.push((n(t[i]), (n(t[i + 1]), unhex(t[i + 2]))));
+                i += 3;
+            }
+            Op::Batch(es)
+        }
+        "del" => Op::Del(n(t[1])),
+        "get" => Op::Get(n(t[1])),
+        "getver" => Op::GetVer(n(t[1])),
+        "prefix" => Op::Prefix(t[1].to_string()),
+        "reopen" => Op::Reopen,
+        "enter" => Op::Enter,
+        "prepare" => Op::Prepare,
+        "commit" => Op::Commit,
+        x => panic!("unknown op {}", x),
+    }
+}
+
+fn res_class(r: &Result<(), Error>) -> String {
+    match r {
+        Ok(()) => "ok".into(),
+        Err(Error::VersionMismatch) => "mismatch".into(),
+        Err(_) => "err".into(),
+    }
+}
+
+/// Run one op on any store; `Err(())` = the call panicked.  `ns` is a key namespace prepended to every
+/// key and prefix (empty for the per-case stores; `c<n>/` for the pooled redb database, see `RedbPool`).
+fn apply<S: KVVStore>(s: &S, op: &Op, ns: &str) -> Result<String, ()> {
+    let key_name = |k: u64| format!("{}{}", ns, key_name(k));
+    let kvvs = |es: &[(u64, Rec)]| -> Vec<KVV> { es.iter().map(|(k, r)| KVV(key_name(*k), r.clone())).collect() };
+    let collect = |it: S::Iter| -> Dump { it.map(|kvv| (key_id(&kvv.0[ns.len()..]), kvv.1)).collect() };
+    let prefix_string = |p: &str| format!("{}{}", ns, prefix_string(p));
+    catch_unwind(AssertUnwindSafe(|| match op {
+        Op::Put(k, x) => res_class(&s.put(&key_name(*k), x.clone())),
+        Op::PutV(k, v, x) => res_class(&s.put_with_version(&key_name(*k), *v, x.clone())),
+        Op::Batch(es) => res_class(&s.put_batch(kvvs(es))),
+        Op::Del(k) => res_class(&s.delete(&key_name(*k))),
+        Op::Get(k) => match s.get(&key_name(*k)) {
+            Ok(Some(r)) => format!("got {}", show_rec(&r)),
+            Ok(None) => "got none".into(),
+            Err(_) => "err".into(),
+        },
+        Op::GetVer(k) => match s.get_version(&key_name(*k)) {
+            Ok(Some(v)) => format!("ver {}", v),
+            Ok(None) => "ver none".into(),
+            Err(_) => "err".into(),
+        },
+        Op::Prefix(p) => match s.get_prefix(&prefix_string(p)) {
+            Ok(it) => format!("list {}", show_dump(&collect(it))),
+            Err(_) => "err".into(),
+        },
+        Op::Reopen => "ok".into(),
+        Op::Enter => res_class(&s.enter()),
+        Op::Prepare => {
+            let m = s.prepare();
+            let d: Dump = m.into_iter().map(|(k, r)| (key_id(&k[ns.len()..]), r)).collect();
+            format!("list {}", show_dump(&d))
+        }
+        Op::Commit => res_class(&s.commit()),
+    }))
+    .map_err(|_| ())
+}
+
+fn full_dump_ns<S: KVVStore>(s: &S, ns: &str) -> Dump {
+    s.get_prefix(ns).expect("get_prefix").map(|kvv| (key_id(&kvv.0[ns.len()..]), kvv.1)).collect()
+}
+
+fn full_dump<S: KVVStore>(s: &S) -> Dump {
+    full_dump_ns(s, "")
+}
+
+fn as_map(d: &Dump) -> BTreeMap<u64, Rec> {
+    d.iter().cloned().collect()
+}
+
+/// the records an accepted write request puts, in order (needs the ledger for `put`/`delete`)
+fn written(op: &Op, ledger: &BTreeMap<u64, Rec>) -> Option<Vec<(u64, Rec)>> {
+    let next = |k: &u64| ledger.get(k).map(|r| r.0.wrapping_add(1)).unwrap_or(0);
+    match op {
+        Op::Put(k, x) => Some(vec![(*k, (next(k), x.clone()))]),
+        Op::Del(k) => Some(vec![(*k, (next(k), vec![]))]),
+        Op::PutV(k, v, x) => Some(vec![(*k, (*v, x.clone()))]),
+        Op::Batch(es) => Some(es.clone()),
+        _ => None,
+    }
+}
+
+fn batch_repeats_key(op: &Op) -> bool {
+    if let Op::Batch(es) = op {
+        let ks: BTreeSet<u64> = es.iter().map(|e| e.0).collect();
+        ks.len() < es.len()
+    } else {
+        false
+    }
+}
+
+/// Ghost ledger of one (non-staged) backend: evaluates the per-backend clauses of the property.
+#[derive(Default)]
+struct Ghost {
+    name: &'static str,
+    prev: BTreeMap<u64, Rec>,
+    seen: HashMap<(u64, u64), Vec<u8>>,
+    ledger: BTreeMap<u64, Rec>,
+}
+
+impl Ghost {
+    fn new(name: &'static str) -> Self {
+        Ghost { name, ..Default::default() }
+    }
+
+    fn observe(&mut self, at: usize, op: &Op, out: &str, dump: &Dump, viol: &mut Vec<Violation>) {
+        let cur = as_map(dump);
+        let n = self.name;
+        let mut push = |kind: &str, desc: String| {
+            viol.push(Violation { kind: kind.into(), desc: format!("{}: {}", n, desc), at })
+        };
+        // versions never decrease, keys never vanish
+        for (k, (v, x)) in &self.prev {
+            match cur.get(k) {
+                None => push("c16-version-decreased", format!("key {} vanished", key_name(*k))),
+                Some((v2, x2)) => {
+                    if v2 < v {
+                        push("c16-version-decreased", format!("key {} went from version {} to {}", key_name(*k), v, v2));
+                    } else if v2 == v && x2 != x {
+                        push("c16-same-version-content-changed",
+                             format!("key {} version {} changed content {} -> {}", key_name(*k), v, hexs(x), hexs(x2)));
+                    }
+                }
+            }
+        }
+        // same version ⇒ same content over the whole history of the committed store
+        for (k, (v, x)) in &cur {
+            match self.seen.get(&(*k, *v)) {
+                Some(old) if old != x => push("c16-same-version-content-changed",
+                    format!("key {} version {} held {} earlier and {} now", key_name(*k), v, hexs(old), hexs(x))),
+                _ => { self.seen.insert((*k, *v), x.clone()); }
+            }
+        }
+        // batch atomicity
+        if let Op::Batch(es) = op {
+            if out == "ok" {
+                let mut last: BTreeMap<u64, Rec> = BTreeMap::new();
+                for (k, r) in es { last.insert(*k, r.clone()); }
+                for (k, r) in &last {
+                    if cur.get(k) != Some(r) {
+                        push("c16-batch-not-atomic", format!("accepted batch: key {} is {:?}, batch wrote {}",
+                            key_name(*k), cur.get(k).map(show_rec), show_rec(r)));
+                    }
+                }
+                for (k, r) in &self.prev {
+                    if !last.contains_key(k) && cur.get(k) != Some(r) {
+                        push("c16-batch-not-atomic", format!("accepted batch changed key {} outside the batch", key_name(*k)));
+                    }
+                }
+            } else if cur != self.prev {
+                push("c16-batch-not-atomic", format!("refused batch ({}) changed the store: {} -> {}", out,
+                    show_dump(&self.prev.clone().into_iter().collect()), show_dump(dump)));
+            }
+        }
+        // read = last accepted write
+        if out == "ok" {
+            if let Some(ws) = written(op, &self.ledger) {
+                for (k, r) in ws { self.ledger.insert(k, r); }
+            }
+        }
+        if cur != self.ledger {
+            push("c16-read-not-last-write", format!("store holds {} but the accepted writes so far give {}",
+                show_dump(dump), show_dump(&self.ledger.clone().into_iter().collect())));
+            self.ledger = cur.clone(); // report once
+        }
+        if let Op::Get(k) = op {
+            let want = match self.ledger.get(k) { Some(r) => format!("got {}", show_rec(r)), None => "got none".into() };
+            if out != want {
+                push("c16-read-not-last-write", format!("get {} returned `{}`, last accepted write gives `{}`", key_name(*k), out, want));
+            }
+        }
+        self.prev = cur;
+    }
+}
+
+// ------------------------------------------------------------------------------------------------
+// memory + redb
+
+struct PairOut {
+    case: CaseOut,
+    state_key: String,
+}
+
+fn redb_probe(r: &RedbKVVStore, ns: &str) -> String {
+    let v: Vec<String> = (0..4u64)
+        .map(|k| match r.get_version(&format!("{}{}", ns, key_name(k))) { Ok(Some(v)) => v.to_string(), _ => "-".into() })
+        .collect();
+    format!("[{}]", v.join(","))
+}
+
+/// Creating a redb database costs ~30 ms of CPU (region initialisation + integrity check), far more than
+/// the requests of a case.  Cases therefore share one real database file per 1000 cases and are isolated by
+/// a per-case key namespace `c<n>/` (the store keeps one table entry and one cached version per key, so a
+/// fresh namespace is a fresh store as far as the property is concerned); `reopen` drops the handle and
+/// opens the same file again with `RedbKVVStore::new`, exactly as a restart does.
+struct RedbPool {
+    dir: tempfile::TempDir,
+    store: Option<RedbKVVStore>,
+    cases: usize,
+}
+
+thread_local! {
+    static POOL: std::cell::RefCell<Option<RedbPool>> = std::cell::RefCell::new(None);
+    static NS: std::cell::Cell<usize> = std::cell::Cell::new(0);
+}
+
+impl RedbPool {
+    fn fresh() -> RedbPool {
+        let dir = scratch_dir();
+        let store = Some(RedbKVVStore::new(dir.path()));
+        RedbPool { dir, store, cases: 0 }
+    }
+    fn reopen(&mut self) {
+        drop(self.store.take());
+        self.store = Some(RedbKVVStore::new(self.dir.path()));
+    }
+    fn st(&self) -> &RedbKVVStore {
+        self.store.as_ref().unwrap()
+    }
+}
+
+/// redb files live on a memory file system when there is one: every write transaction fsyncs, and the
+/// durability of fsync is outside this check (DESIGN §1.3); `VERIF_TMP` overrides the location
+fn scratch_dir() -> tempfile::TempDir {
+    if let Ok(d) = std::env::var("VERIF_TMP") {
+        return tempfile::tempdir_in(d).expect("tempdir");
+    }
+    if std::path::Path::new("/dev/shm").is_dir() {
+        if let Ok(d) = tempfile::tempdir_in("/dev/shm") {
+            return d;
+        }
+    }
+    tempfile::tempdir().expect("tempdir")
+}
+
+fn run_pair(ops: &[String]) -> PairOut {
+    let mem = MemoryKVVStore::new(SID);
+    let mut pool = POOL.with(|p| p.borrow_mut().take()).filter(|p| p.cases < 1000 && p.store.is_some()).unwrap_or_else(RedbPool::fresh);
+    pool.cases += 1;
+    let ns = NS.with(|n| { n.set(n.get() + 1); format!("c{}/", n.get()) });
+    let ns = ns.as_str();
+    let mut co = CaseOut::default();
+    let (mut gm, mut gr) = (Ghost::new("memory"), Ghost::new("redb"));
+    let mut diverged = false;
+    let (mut accepted, mut refused) = (false, false);
+    let mut state_key = String::new();
+    for (i, line) in ops.iter().enumerate() {
+        let op = parse_op(line);
+        // memory
+        let om = apply(&mem, &op, "").unwrap_or_else(|_| "panic".into());
+        // (a store whose own mutex got poisoned by a panic can no longer be dumped: report that instead of
+        // aborting the case; cannot happen on the unchanged tree, where memory panics outside its lock)
+        let dm = catch_unwind(AssertUnwindSafe(|| full_dump(&mem))).unwrap_or_else(|_| vec![(99, (0, b"poisoned".to_vec()))]);
+        // redb
+        let before = full_dump_ns(pool.st(), ns);
+        let probe_before = redb_probe(pool.st(), ns);
+        let or = if op == Op::Reopen {
+            pool.reopen();
+            "ok".to_string()
+        } else {
+            match apply(pool.st(), &op, ns) {
+                Ok(s) => s,
+                Err(()) => {
+                    // the handle's `versions` mutex may be poisoned now; a poisoned handle is not
+                    // modelled: continue on a fresh handle over the same file
+                    pool.reopen();
+                    "panic".to_string()
+                }
+            }
+        };
+        let dr = full_dump_ns(pool.st(), ns);
+        let probe = redb_probe(pool.st(), ns);
+        if op == Op::Reopen && (before != dr || probe_before != probe) {
+            co.violations.push(Violation {
+                kind: "c16-reopen-changed-contents".into(),
+                desc: format!("redb before reopen {} V {}, after {} V {}", show_dump(&before), probe_before, show_dump(&dr), probe),
+                at: i,
+            });
+        }
+        gm.observe(i, &op, &om, &dm, &mut co.violations);
+        gr.observe(i, &op, &or, &dr, &mut co.violations);
+        // the version cache must agree with the table (observable through get_version)
+        {
+            let m = as_map(&dr);
+            let want: Vec<String> = (0..4u64).map(|k| m.get(&k).map(|r| r.0.to_string()).unwrap_or("-".into())).collect();
+            let want = format!("[{}]", want.join(","));
+            if want != probe {
+                co.violations.push(Violation {
+                    kind: "c16-redb-cache-differs-from-table".into(),
+                    desc: format!("redb get_version gives {} but the table holds versions {}", probe, want),
+                    at: i,
+                });
+            }
+        }
+        if !diverged && (om != or || dm != dr) {
+            diverged = true;
+            let kind = if batch_repeats_key(&op) { "c16-mem-redb-differ-batch-repeats-key" } else { "c16-mem-redb-differ" };
+            co.violations.push(Violation {
+                kind: kind.into(),
+                desc: format!("`{}`: memory -> {} {} ; redb -> {} {}", line, om, show_dump(&dm), or, show_dump(&dr)),
+                at: i,
+            });
+            co.tags.insert("diverged".into());
+        }
+        for (n, o) in [("mem", &om), ("redb", &or)] {
+            let class = o.split(' ').next().unwrap_or("");
+            co.tags.insert(format!("{}:{}:{}", n, line.split(' ').next().unwrap_or(""), class));
+        }
+        if matches!(op, Op::Put(..) | Op::PutV(..) | Op::Batch(..) | Op::Del(..)) {
+            if om == "ok" { accepted = true } else { refused = true }
+        }
+        if batch_repeats_key(&op) { co.tags.insert("batch-repeats-key".into()); }
+        state_key = format!("D {} | D {} V {}", show_dump(&dm), show_dump(&dr), probe);
+        co.out.push(format!("M {} D {} | R {} D {} V {}", om, show_dump(&dm), or, show_dump(&dr), probe));
+    }
+    co.nontrivial = accepted && refused;
+    POOL.with(|p| *p.borrow_mut() = Some(pool));
+    PairOut { case: co, state_key }
+}
+
+fn vals() -> [&'static str; 2] {
+    ["aa", "bb"]
+}
+
+fn entry_alphabet() -> Vec<String> {
+    let mut v = Vec::new();
+    for k in 1..=2u64 {
+        for ver in 0..3u64 {
+            for x in vals() {
+                v.push(format!("{} {} {}", k, ver, x));
+            }
+        }
+    }
+    v
+}
+
+fn write_alphabet() -> Vec<String> {
+    let mut a = Vec::new();
+    for k in 1..=2u64 {
+        for x in vals() {
+            a.push(format!("put {} {}", k, x));
+        }
+        a.push(format!("del {}", k));
+    }
+    let es = entry_alphabet();
+    for e in &es {
+        a.push(format!("putv {}", e));
+    }
+    a.push("batch".to_string());
+    for e in &es {
+        a.push(format!("batch {}", e));
+    }
+    for e in &es {
+        for f in &es {
+            a.push(format!("batch {} {}", e, f));
+        }
+    }
+    a
+}
+
+fn pair_alphabet() -> Vec<String> {
+    let mut a = write_alphabet();
+    for k in 1..=2u64 {
+        a.push(format!("get {}", k));
+        a.push(format!("getver {}", k));
+    }
+    a.push("prefix all".into());
+    a.push("prefix k1".into());
+    a.push("reopen".into());
+    a
+}
+
+fn cloud_alphabet() -> Vec<String> {
+    let mut a = write_alphabet();
+    for k in 0..=2u64 {
+        a.push(format!("get {}", k));
+    }
+    a.push("getver 1".into());
+    a.push("prefix all".into());
+    a.push("enter".into());
+    a.push("prepare".into());
+    a.push("commit".into());
+    a
+}
+
+/// All sequences of length ≤ depth over `alphabet`, collapsed on the state key `run` reports:
+/// every op is tried from one representative sequence of every distinct reachable state.
+fn bfs_plan(
+    alphabet: &[String],
+    depth: usize,
+    max_cases: usize,
+    run: &dyn Fn(&[String]) -> (CaseOut, String),
+    cache: &Mutex<HashMap<String, CaseOut>>,
+) -> (Vec<Vec<String>>, Vec<usize>) {
+    let mut cases = Vec::new();
+    let mut seen: BTreeSet<String> = BTreeSet::new();
+    let mut frontier: Vec<Vec<String>> = vec![vec![]];
+    let mut states_per_depth = Vec::new();
+    seen.insert(run(&[]).1);
+    'outer: for _d in 0..depth {
+        let mut next = Vec::new();
+        for rep in &frontier {
+            for op in alphabet {
+                let mut c = rep.clone();
+                c.push(op.clone());
+                let (out, key) = run(&c);
+                cache.lock().unwrap().insert(c.join("\n"), out);
+                if seen.insert(key) {
+                    next.push(c.clone());
+                }
+                cases.push(c);
+                if cases.len() >= max_cases {
+                    states_per_depth.push(next.len());
+                    break 'outer;
+                }
+            }
+        }
+        states_per_depth.push(next.len());
+        frontier = next;
+    }
+    (cases, states_per_depth)
+}
+
+fn rand_val(rng: &mut Rng) -> String {
+    match rng.below(6) {
+        0 => "-".into(),
+        1 | 2 => "aa".into(),
+        3 => "bb".into(),
+        4 => "aabb".into(),
+        _ => { let n = 1 + rng.below(3) as usize; hex::encode(rng.bytes(n)) }
+    }
+}
+
+fn rand_ver(rng: &mut Rng) -> u64 {
+    match rng.below(12) {
+        0..=6 => rng.below(4),
+        7 => rng.below(8),
+        8 => if rng.chance(1, 3) { u64::MAX } else { u64::MAX - 1 },
+        9 => u64::MAX - 1 - rng.below(2),
+        10 => 1u64 << 32,
+        _ => rng.below(3),
+    }
+}
+
+fn rand_write(rng: &mut Rng) -> String {
+    let k = rng.range(1, 3);
+    match rng.below(10) {
+        0 | 1 => format!("put {} {}", k, rand_val(rng)),
+        2 => format!("del {}", k),
+        3 | 4 | 5 => format!("putv {} {} {}", k, rand_ver(rng), rand_val(rng)),
+        _ => {
+            let n = rng.below(4);
+            let mut s = "batch".to_string();
+            let mut lastk = k;
+            for _ in 0..n {
+                let kk = if rng.chance(1, 3) { lastk } else { rng.range(1, 3) };
+                lastk = kk;
+                s += &format!(" {} {} {}", kk, rand_ver(rng), rand_val(rng));
+            }
+            s
+        }
+    }
+}
+
+pub struct C16Pair {
+    plan: OnceLock<Vec<Vec<String>>>,
+    next: AtomicUsize,
+    cache: Mutex<HashMap<String, CaseOut>>,
+}
+
+impl C16Pair {
+    fn plan(&self, tier: Tier) -> &Vec<Vec<String>> {
+        self.plan.get_or_init(|| {
+            let (depth, max) = if tier == Tier::Quick { (4, 45_000) } else { (6, 250_000) };
+            let run = |ops: &[String]| {
+                let r = run_pair(ops);
+                (r.case, r.state_key)
+            };
+            let (cases, per_depth) = bfs_plan(&pair_alphabet(), depth, max, &run, &self.cache);
+            eprintln!("C16Pair: {} enumerated cases, new states per depth {:?}", cases.len(), per_depth);
+            cases
+        })
+    }
+    fn random_budget(tier: Tier) -> usize {
+        if tier == Tier::Quick { 800 } else { 12_000 }
+    }
+}
+
+impl Group for C16Pair {
+    fn property(&self) -> &'static str { "C16" }
+    fn model(&self) -> Option<&'static str> { Some("kvv_pair") }
+    fn rule(&self) -> &'static str {
+        "memory+redb: every request sequence up to length 4 (quick) / 6 (thorough) over {put, put_with_version, \
+         put_batch(0..2 entries incl. repeated key), delete, get, get_version, get_prefix, reopen} x 2 keys x versions 0..2 \
+         x 2 values, explored breadth-first modulo equality of the complete observable state of both real stores (dumps + \
+         redb get_version probes), capped at 45k/250k cases; then random sequences of 5..60 requests over 3 keys with versions \
+         near 0, 2^32 and u64::MAX; a case is non-trivial when it contains an accepted and a refused write"
+    }
+    fn budget(&self, tier: Tier) -> usize { self.plan(tier).len() + Self::random_budget(tier) }
+    fn corpus(&self) -> Vec<Vec<String>> {
+        let c = |s: &str| s.split('|').map(|x| x.to_string()).collect::<Vec<_>>();
+        vec![
+            // F8 witness (DESIGN §4): batch repeating a key
+            c("putv 1 1 aa|batch 1 2 bb 1 1 aa|get 1|prefix all"),
+            c("putv 1 1 aa|batch 1 2 bb 1 1 aa 1 2 aa|get 1|reopen|get 1"),
+            // the repository's own unit-test scenarios
+            c("put 1 010203|get 1|put 1 040506|get 1|del 1|get 1|getver 1"),
+            c("putv 1 0 010203|putv 1 0 010203|putv 1 0 040506|putv 1 1 070809|get 1|reopen|getver 1|put 1 aa"),
+            c("batch 1 0 010203 2 0 040506|batch 1 0 010203|batch 1 1 070809|batch 1 0 aa 2 1 bb|prefix k|reopen|prefix all"),
+            // u64::MAX version: `v + 1` overflows in put
+            c("putv 1 18446744073709551615 aa|put 1 bb|get 1|del 1|putv 1 18446744073709551615 aa|putv 1 18446744073709551614 aa"),
+        ]
+    }
+    fn gen_case(&self, rng: &mut Rng, tier: Tier) -> Vec<String> {
+        let i = self.next.fetch_add(1, Ordering::SeqCst);
+        let plan = self.plan(tier);
+        if i < plan.len() {
+            return plan[i].clone();
+        }
+        let len = rng.range(5, if tier == Tier::Quick { 30 } else { 60 }) as usize;
+        let mut ops = Vec::new();
+        for _ in 0..len {
+            let k = rng.range(1, 3);
+            ops.push(match rng.below(13) {
+                0 => format!("get {}", k),
+                1 => format!("getver {}", k),
+                2 => format!("prefix {}", rng.pick(&["all", "k", "k1", "k2", "zz", "w"])),
+                3 => if rng.chance(1, 3) { "reopen".to_string() } else { rand_write(rng) }, // a reopen costs ~30 ms
+                _ => rand_write(rng),
+            });
+        }
+        ops
+    }
+    fn exec_case(&self, ops: &[String]) -> CaseOut {
+        if let Some(c) = self.cache.lock().unwrap().remove(&ops.join("\n")) {
+            return c;
+        }
+        run_pair(ops).case
+    }
+}
+
+// ------------------------------------------------------------------------------------------------
+// cloud
+
+#[derive(Clone, Copy, PartialEq, Debug)]
+enum Txn {
+    Closed,
+    Open,
+    Poisoned,
+}
+
+fn run_cloud(ops: &[String]) -> (CaseOut, String) {
+    let cloud = CloudKVVStore::new(MemoryKVVStore::new(SID));
+    let mut co = CaseOut::default();
+    let mut txn = Txn::Closed;
+    let mut prev = BTreeMap::<u64, Rec>::new();
+    let mut seen: HashMap<(u64, u64), Vec<u8>> = HashMap::new();
+    // writes accepted in the open transaction that advanced a key beyond the committed store
+    let mut pending: BTreeMap<u64, Rec> = BTreeMap::new();
+    // mutations reported by the last prepare with no accepted write since
+    let mut reported: Option<Dump> = None;
+    let (mut accepted, mut refused) = (false, false);
+    for (i, line) in ops.iter().enumerate() {
+        let op = parse_op(line);
+        let r = apply(&cloud, &op, "");
+        let out = match &r { Ok(s) => s.clone(), Err(()) => "panic".to_string() };
+        let dump = full_dump(&cloud);
+        let cur = as_map(&dump);
+        let mut push = |kind: &str, desc: String| co.violations.push(Violation { kind: kind.into(), desc: format!("cloud: {}", desc), at: i });
+        // never lowers a version; same version same content (committed = local store)
+        for (k, (v, x)) in &prev {
+            match cur.get(k) {
+                None => push("c16-version-decreased", format!("key {} vanished from the local store", key_name(*k))),
+                Some((v2, x2)) => {
+                    if v2 < v { push("c16-version-decreased", format!("local key {} went from version {} to {}", key_name(*k), v, v2)); }
+                    else if v2 == v && x2 != x { push("c16-same-version-content-changed", format!("local key {} version {} changed content", key_name(*k), v)); }
+                }
+            }
+        }
+        for (k, (v, x)) in &cur {
+            match seen.get(&(*k, *v)) {
+                Some(old) if old != x => push("c16-same-version-content-changed", format!("local key {} version {} held {} earlier and {} now", key_name(*k), v, hexs(old), hexs(x))),
+                _ => { seen.insert((*k, *v), x.clone()); }
+            }
+        }
+        // the local store changes only at commit
+        if op != Op::Commit && cur != prev {
+            push("c16-cloud-local-changed-outside-commit", format!("`{}` changed the local store to {}", line, show_dump(&dump)));
+        }
+        // bookkeeping of accepted writes
+        let is_write = matches!(op, Op::Put(..) | Op::PutV(..) | Op::Batch(..) | Op::Del(..));
+        if is_write {
+            // entries of a batch are accepted one by one until the first refusal
+            let entries: Vec<(u64, Rec, bool)> = match &op {
+                Op::Put(k, x) => vec![(*k, (prev.get(k).map(|r| r.0.wrapping_add(1)).unwrap_or(0), x.clone()), out == "ok")],
+                Op::Del(k) => vec![(*k, (prev.get(k).map(|r| r.0.wrapping_add(1)).unwrap_or(0), vec![]), out == "ok")],
+                Op::PutV(k, v, x) => vec![(*k, (*v, x.clone()), out == "ok")],
+                Op::Batch(es) => {
+                    // which prefix was accepted is not reported by the API when the batch fails:
+                    // derive it from the acceptance rule against the committed (local) store
+                    let mut v = Vec::new();
+                    for (k, r) in es {
+                        let ok = match prev.get(k) { None => true, Some((v0, x0)) => r.0 > *v0 || (r.0 == *v0 && r.1 == *x0) };
+                        if !ok { break; }
+                        v.push((*k, r.clone(), out != "panic"));
+                    }
+                    v
+                }
+                _ => vec![],
+            };
+            for (k, r, ok) in entries {
+                if ok && txn == Txn::Open {
+                    let advances = match prev.get(&k) { None => true, Some((v0, _)) => r.0 > *v0 };
+                    if advances { pending.insert(k, r); reported = None; }
+                }
+            }
+            if out == "ok" { accepted = true } else { refused = true }
+        }
+        // read-your-writes by key
+        if let (Op::Get(k), Txn::Open) = (&op, txn) {
+            let want = match pending.get(k).or(cur.get(k)) { Some(r) => format!("got {}", show_rec(r)), None => "got none".into() };
+            if *k != 0 && out != want {
+                push("c16-cloud-ryw", format!("get {} returned `{}` but the transaction's own last write / the store gives `{}`", key_name(*k), out, want));
+            }
+        }
+        match &op {
+            Op::Enter => if out == "ok" { pending.clear(); reported = None; },
+            Op::Prepare => if let Some(l) = out.strip_prefix("list ") {
+                // remember what was reported (parse back from the canonical text is not needed: recompute)
+                let _ = l;
+                if let Ok(_) = &r {
+                    // re-read through get for each key is intrusive; use the textual list
+                    reported = Some(parse_dump(l));
+                }
+            },
+            Op::Commit => {
+                if out == "ok" {
+                    if let Some(rep) = &reported {
+                        let mut want = prev.clone();
+                        for (k, r) in rep { want.insert(*k, r.clone()); }
+                        if want != cur {
+                            push("c16-cloud-commit-not-exact", format!("prepare reported {} ; local store went {} -> {}",
+                                show_dump(rep), show_dump(&prev.clone().into_iter().collect()), show_dump(&dump)));
+                        }
+                    }
+                } else if cur != prev && out != "ok" {
+                    push("c16-cloud-commit-not-exact", format!("commit returned {} but changed the local store", out));
+                }
+                pending.clear();
+                reported = None;
+            }
+            _ => {}
+        }
+        // transaction status as the results reveal it
+        if out == "panic" {
+            // every panic the store raises itself happens under its mutex, except the `v + 1`
+            // overflows (put/delete/enter at u64::MAX) which happen before the lock is taken
+            let overflow = match &op {
+                Op::Put(k, _) | Op::Del(k) => prev.get(k).map(|r| r.0 == u64::MAX).unwrap_or(false),
+                Op::Enter => prev.get(&0).map(|r| r.0 == u64::MAX).unwrap_or(false),
+                _ => false,
+            };
+            if !overflow { txn = Txn::Poisoned; }
+        } else if txn != Txn::Poisoned {
+            match &op {
+                Op::Enter if out == "ok" => txn = Txn::Open,
+                Op::Commit => txn = Txn::Closed,
+                _ => {}
+            }
+        }
+        co.tags.insert(format!("cloud:{}:{}", line.split(' ').next().unwrap_or(""), out.split(' ').next().unwrap_or("")));
+        co.tags.insert(format!("cloud:txn:{:?}", txn));
+        co.out.push(format!("{} D {}", out, show_dump(&dump)));
+        prev = cur;
+    }
+    co.nontrivial = accepted && refused;
+    // state key: local store, status, and (inside a transaction) the log as seen through get
+    let mut key = format!("D {} {:?}", show_dump(&prev.clone().into_iter().collect()), txn);
+    if txn == Txn::Open {
+        for k in 0..=2u64 {
+            key += &format!(" {}", apply(&cloud, &Op::Get(k), "").unwrap_or_else(|_| "panic".into()));
+        }
+        // an emptied log (after an "empty" prepare) is distinguishable only through prepare itself;
+        // it is reflected by `get 0` returning the local record instead of the pending one
+    }
+    (co, key)
+}
+
+fn parse_dump(s: &str) -> Dump {
+    let s = s.trim().trim_start_matches('[').trim_end_matches(']');
+    if s.is_empty() {
+        return vec![];
+    }
+    s.split(',')
+        .map(|e| {
+            let p: Vec<&str> = e.split(':').collect();
+            (p[0].parse().unwrap(), (p[1].parse().unwrap(), unhex(p[2])))
+        })
+        .collect()
+}
+
+pub struct C16Cloud {
+    plan: OnceLock<Vec<Vec<String>>>,
+    next: AtomicUsize,
+    cache: Mutex<HashMap<String, CaseOut>>,
+}
+
+impl C16Cloud {
+    fn plan(&self, tier: Tier) -> &Vec<Vec<String>> {
+        self.plan.get_or_init(|| {
+            let (depth, max) = if tier == Tier::Quick { (5, 80_000) } else { (6, 300_000) };
+            let (cases, per_depth) = bfs_plan(&cloud_alphabet(), depth, max, &run_cloud, &self.cache);
+            eprintln!("C16Cloud: {} enumerated cases, new states per depth {:?}", cases.len(), per_depth);
+            cases
+        })
+    }
+}
+
+impl Group for C16Cloud {
+    fn property(&self) -> &'static str { "C16" }
+    fn model(&self) -> Option<&'static str> { Some("kvv_cloud") }
+    fn rule(&self) -> &'static str {
+        "cloud<memory>: every request sequence up to length 5 (quick) / 6 (thorough) over {put, put_with_version, put_batch(0..2 \
+         entries), delete, get, get_version, get_prefix, enter, prepare, commit} x 2 keys x versions 0..2 x 2 values, explored \
+         breadth-first modulo equality of the observable state (local dump, transaction status, pending entries read through \
+         get), capped at 80k/300k cases; then random transactions (mostly well-bracketed enter..prepare..commit with occasional \
+         misuse) of 5..60 requests; non-trivial = an accepted and a refused write"
+    }
+    fn budget(&self, tier: Tier) -> usize { self.plan(tier).len() + if tier == Tier::Quick { 2000 } else { 40_000 } }
+    fn corpus(&self) -> Vec<Vec<String>> {
+        let c = |s: &str| s.split('|').map(|x| x.to_string()).collect::<Vec<_>>();
+        vec![
+            c("enter|put 1 aa|get 1|prefix all|prepare|commit|prefix all|enter|get 1|put 1 bb|get 1|prepare|commit|get 1"),
+            // DESIGN §3 C16 note: a pending entry replaced by a lower (still > local) version
+            c("enter|putv 1 5 aa|putv 1 3 bb|get 1|prepare|commit|prefix all"),
+            // empty prepare commits nothing; a write after it trips the len==1 assertion of the next prepare
+            c("enter|prepare|commit|prefix all|enter|prepare|put 1 aa|prepare|get 1"),
+            // misuse: not in a transaction / entering twice poisons the mutex
+            c("put 1 aa|enter|prefix all"),
+            c("enter|enter|get 1|prefix all|batch"),
+            // failing batch leaves its accepted prefix in the log
+            c("enter|putv 2 1 aa|prepare|commit|enter|batch 1 0 aa 2 0 bb|get 1|prepare|commit|prefix all"),
+        ]
+    }
+    fn gen_case(&self, rng: &mut Rng, tier: Tier) -> Vec<String> {
+        let i = self.next.fetch_add(1, Ordering::SeqCst);
+        let plan = self.plan(tier);
+        if i < plan.len() {
+            return plan[i].clone();
+        }
+        let len = rng.range(5, if tier == Tier::Quick { 30 } else { 60 }) as usize;
+        let mut ops: Vec<String> = Vec::new();
+        let mut open = false;
+        while ops.len() < len {
+            if rng.chance(1, 40) {
+                ops.push(rng.pick(&["enter", "prepare", "commit", "get 1", "put 1 aa"]).to_string()); // misuse
+                continue;
+            }
+            if !open {
+                if rng.chance(1, 5) { ops.push("prefix all".into()); }
+                ops.push("enter".into());
+                open = true;
+                continue;
+            }
+            match rng.below(12) {
+                0 | 1 => ops.push(format!("get {}", rng.below(4))),
+                2 => ops.push(format!("getver {}", rng.range(1, 3))),
+                3 => ops.push("prefix all".into()),
+                4 | 5 => {
+                    ops.push("prepare".into());
+                    if rng.chance(1, 6) { ops.push(rand_write(rng)); }
+                    if rng.chance(1, 4) { ops.push("prepare".into()); }
+                    ops.push("commit".into());
+                    open = false;
+                }
+                _ => ops.push(rand_write(rng)),
+            }
+        }
+        ops
+    }
+    fn exec_case(&self, ops: &[String]) -> CaseOut {
+        if let Some(c) = self.cache.lock().unwrap().remove(&ops.join("\n")) {
+            return c;
+        }
+        run_cloud(ops).0
+    }
+}
 
 pub fn groups() -> Vec<Box<dyn Group>> {
-    vec![]
+    vec![
+        Box::new(C16Pair { plan: OnceLock::new(), next: AtomicUsize::new(0), cache: Mutex::new(HashMap::new()) }),
+        Box::new(C16Cloud { plan: OnceLock::new(), next: AtomicUsize::new(0), cache: Mutex::new(HashMap::new()) }),
+    ]
 }
